@@ -245,6 +245,7 @@ def boom(ctx, dist, nontriv, per_cfg):
         ctx.violation({"kind": "generated-server-does-not-build", "config": "execboom:base", "detail": str(e)[-3000:],
                        "shape": {"config": "execboom:base", "build": "fail"}})
         return
+    argfaults(ctx, b, dist, nontriv, per_cfg)
     rounds = 18 if ctx.tier == "quick" else 120
     plan0 = {"seed": ctx.seed, "rates": {}}
     sites = [
@@ -334,3 +335,73 @@ def boom(ctx, dist, nontriv, per_cfg):
         else:
             okc += 1
     per_cfg["execboom:base/http"] = {"cases": len(cases) - 1, "as_stated": okc}
+
+
+def argfaults(ctx, b, dist, nontriv, per_cfg):
+    """`... or an input unmarshaler returning an error or panicking`: a custom scalar whose UnmarshalGQL fails on an
+    argument value. The field must behave exactly as if its RESOLVER had failed at that position (null, one error,
+    ordinary propagation, the recover hook once per panic, everything else untouched) - and the resolver is not run.
+    Judged against the twin operation with a harmless argument and the resolver forced to fail the same way."""
+    shapes = [
+        ("root", "{ ok echo(b: %s) t { s } }", ["echo"]),
+        ("root-list-arg", "{ ok echo(bs: [\"x\", %s]) t { s } }", ["echo"]),
+        ("nested", "{ ok t { s echo(b: %s) kid { s } } }", ["t/echo"]),
+        ("nested-non-null", "{ ok t { s echoNN(b: %s) } m { c } }", ["t/echoNN"]),
+        ("root-non-null", "{ ok echoNN(b: %s) }", ["echoNN"]),
+        ("list-elements", "{ ts { s echo(b: %s) } ok }", ["ts/0/echo", "ts/1/echo", "ts/2/echo"]),
+        ("two-in-one-object", "{ t { e1: echo(b: %s) e2: echoNN(b: %s) s } ok }", ["t/e1", "t/e2"]),
+    ]
+    base_ov = {"t": {"kind": "value"}, "t/kid": {"kind": "value"}, "ts": {"kind": "value", "len": 3}, "m": {"kind": "value"},
+               "ts/0#elem": {"kind": "value"}, "ts/1#elem": {"kind": "value"}, "ts/2#elem": {"kind": "value"}}
+    cases = []
+    meta = []
+    for name, q, paths in shapes:
+        for kind, lit in (("error", '"ERR"'), ("panic", '"PANIC"')):
+            n = q.count("%s")
+            for via in ("literal", "variable"):
+                if via == "literal":
+                    query, variables = q % ((lit,) * n), None
+                else:
+                    query, variables = "query($v: Boom!) " + q % (("$v",) * n), {"v": lit.strip('"')}
+                cid = "argfault-%s-%s-%s" % (name, kind, via)
+                cases.append({"id": cid, "query": query, "variables": variables, "plan": {"seed": ctx.seed, "rates": {}, "overrides": dict(base_ov)}})
+                ov = dict(base_ov)
+                for pth in paths:
+                    ov[pth] = {"kind": kind, "msg": "TWIN"}
+                cases.append({"id": cid + "-twin", "query": q % (('"fine"',) * n), "plan": {"seed": ctx.seed, "rates": {}, "overrides": ov}})
+                meta.append((cid, name, kind, via, paths))
+    rc, so, se = vf.sh([b, "-mode", "run"], inp="\n".join(json.dumps(c) for c in cases) + "\n", timeout=600)
+    if rc != 0:
+        ctx.violation({"kind": "crash", "config": "execboom:base", "where": "argument unmarshaler faults", "stderr": se[-4000:],
+                       "shape": {"crash": True, "where": "argument-unmarshal"}, "cases": cases[:4]})
+        return
+    res = [json.loads(l) for l in so.split("\n") if l]
+    okc = 0
+    for k, (cid, name, kind, via, paths) in enumerate(meta):
+        r, tw = res[2 * k], res[2 * k + 1]
+        bad = None
+        if r.get("gateErrors") or tw.get("gateErrors") or not r["payloads"] or not tw["payloads"]:
+            bad = "not executed: %s / %s" % (r.get("gateErrors") or r.get("crash"), tw.get("gateErrors") or tw.get("crash"))
+        else:
+            P, T = r["payloads"][0], tw["payloads"][0]
+            if P["data"] != T["data"]:
+                bad = "data differs from the twin whose resolver fails at the same position: %s vs %s" % (json.dumps(P["data"])[:300], json.dumps(T["data"])[:300])
+            elif len(P["errors"]) != len(T["errors"]):
+                bad = "%d errors, the twin has %d" % (len(P["errors"]), len(T["errors"]))
+            elif sorted(e["path"].rsplit("/b", 1)[0] if e["path"].endswith(("/b", "/bs")) or "/bs/" in e["path"] else e["path"] for e in P["errors"]) != sorted(e["path"] for e in T["errors"]) \
+                    and sorted(e["path"].split("/b")[0] for e in P["errors"]) != sorted(e["path"] for e in T["errors"]):
+                bad = "error paths %s are not at (or below the argument of) the failing fields %s" % ([e["path"] for e in P["errors"]], [e["path"] for e in T["errors"]])
+            elif r["recovers"] != tw["recovers"]:
+                bad = "recover hook ran %d times, the twin's %d" % (r["recovers"], tw["recovers"])
+            elif any(i["path"] in paths and i["hook"] == "resolver" for i in r["log"]):
+                bad = "the resolver ran although its argument could not be unmarshalled"
+        dist["argument-unmarshal-fault:" + kind + ":" + via] += 1
+        nontriv.add(cid)
+        if bad:
+            ctx.violation({"kind": "argument-unmarshal-fault", "what": bad, "config": "execboom:base", "case": cases[2 * k], "twin": cases[2 * k + 1],
+                           "result": r.get("payloads"), "twin_result": tw.get("payloads"), "recovers": r.get("recovers"),
+                           "shape": {"kind": "argument-unmarshal-fault", "what": bad.split(":")[0][:40]},
+                           "replay": "echo '<case json>' | <generated server execboom:base> -mode run"})
+        else:
+            okc += 1
+    per_cfg["execboom:base/argument-unmarshal"] = {"cases": len(meta), "as_stated": okc}
